@@ -23,7 +23,7 @@ func init() {
 		ID:       "C06",
 		Patterns: []string{"./sql", "./sql/expression", "./sql/hash", "./sql/types", "./sql/plan", "./sql/analyzer", "./sql/planbuilder"},
 		Explanation: "Some of the equivalences in the property are finite three-valued tables visible in the code; those are read from the source by folding over abstract outcomes and compared entry by entry: " +
-			"(CMP) Equals/GreaterThanOrEqual/LessThanOrEqual/GreaterThan/LessThan.Eval map the outcomes of Compare (<, =, >, NULL operand, and for tuple equality 'unequal with a NULL element') to the SQL truth value, and comparison.Compare reports a NULL operand as (0, ErrNilOperand); " +
+			"(CMP) Equals/GreaterThanOrEqual/LessThanOrEqual/GreaterThan/LessThan.Eval map the outcomes of Compare (<, =, >, NULL operand, and for tuple equality 'unequal with a NULL element') to the SQL truth value, comparison.Compare reports a NULL operand as (0, ErrNilOperand), and NullSafeEquals (Eval composed with Compare) is TRUE for two NULLs and FALSE for one; " +
 			"(IN) InTuple.Eval, folded over {left NULL, left value} x lists of one and two elements of kinds {equal, less, greater, NULL-typed, NULL-valued, tuple-with-NULL equal elsewhere, tuple-with-NULL unequal elsewhere}, equals the Kleene OR of the folded Equals table applied to each element, and NewNotInTuple is Not(InTuple(left, right)); " +
 			"(HIN) HashInTuple.Eval, the form applyHashIn rewrites IN into, folded over {left NULL, value} x {conversion in range, underflow, overflow} x {probe hit, miss} x {list had NULL, not}, yields what IN yields (hit TRUE; no match NULL iff the list had a NULL; NULL left NULL); " +
 			"(HF) newInMap, which computes that list-had-NULL flag when the rewrite happens, sets it iff the list holds a NULL-typed or NULL-valued element (lists of 0, 1 and 2 elements, and a NULL-typed left operand), and NewHashInTuple stores newInMap's flag, element set and comparison type and keeps the operands in position; " +
@@ -46,12 +46,12 @@ func init() {
 // c06Anchors names the packages that play each role (the fixture uses one package for the first four).
 type c06Anchors struct {
 	ex, ty, hs, sq, an, pl, pb string
-	floors             map[string]int
-	outOfRangeDead     bool // named exception for HashInTuple.Eval's out-of-range arm (real tree only)
+	floors                     map[string]int
+	outOfRangeDead             bool // named exception for HashInTuple.Eval's out-of-range arm (real tree only)
 }
 
 var c06Real = c06Anchors{ex: "sql/expression", ty: "sql/types", hs: "sql/hash", sq: "sql", an: "sql/analyzer", pl: "sql/plan", pb: "sql/planbuilder",
-	floors: map[string]int{"C06-CMP": 25, "C06-IN": 113, "C06-HIN": 14, "C06-HF": 17, "C06-HG": 9, "C06-BTW": 16, "C06-PN": 8, "C06-SQ": 11, "C06-PB": 13}, outOfRangeDead: true}
+	floors: map[string]int{"C06-CMP": 28, "C06-IN": 113, "C06-HIN": 14, "C06-HF": 17, "C06-HG": 9, "C06-BTW": 16, "C06-PN": 8, "C06-SQ": 11, "C06-PB": 13}, outOfRangeDead: true}
 var c06Fix = c06Anchors{ex: "testdata/c06/expr", ty: "testdata/c06/expr", hs: "testdata/c06/expr", sq: "testdata/c06/expr", an: "testdata/c06/an", pl: "testdata/c06/expr", pb: "testdata/c06/pb",
 	floors: map[string]int{}}
 
@@ -69,6 +69,7 @@ var c06FixtureWant = []string{
 	"C06-BTW:Between.Eval(val?lower:NULL,val?upper:>)",
 	"C06-CMP:comparison.Compare(left=NULL,right=value)",
 	"C06-CMP:comparison.Compare(left=value,right=NULL)",
+	"C06-CMP:NullSafeEquals(left=NULL,right=value)",
 	"C06-HF:newInMap(list=[NULL-typed,NULL-typed])",
 	"C06-HF:newInMap(list=[NULL-typed,value])",
 	"C06-HF:newInMap(list=[NULL-typed])",
@@ -161,15 +162,15 @@ func c06KNot(a int) int {
 
 // c06World carries the resolved anchors and the distinguished symbols of the abstraction.
 type c06World struct {
-	c                  *Ctx
+	c                          *Ctx
 	ex, ty, hs, sq, an, pl, pb *packages.Package
-	nilSym             *MSym
-	errNil             *MSym // the error value ErrNilOperand.New() produces
-	errOther           *MSym // any other non-nil error
-	errKind            *MSym // the package-level ErrNilOperand
-	typeNull           *MSym // the package-level types.Null
-	globals            map[types.Object]MV
-	cmpTab             map[string]map[c06Out]int // folded Eval tables of the comparison types
+	nilSym                     *MSym
+	errNil                     *MSym // the error value ErrNilOperand.New() produces
+	errOther                   *MSym // any other non-nil error
+	errKind                    *MSym // the package-level ErrNilOperand
+	typeNull                   *MSym // the package-level types.Null
+	globals                    map[types.Object]MV
+	cmpTab                     map[string]map[c06Out]int // folded Eval tables of the comparison types
 }
 
 func (w *c06World) distinguished(s *MSym) bool {
@@ -315,6 +316,7 @@ func runC06(c *Ctx, a c06Anchors) {
 	}
 
 	c06Cmp(w)
+	c06NullSafe(w)
 	c06In(w)
 	c06HashIn(w, a)
 	c06HashFlag(w)
@@ -476,6 +478,73 @@ func c06Cmp(w *c06World) {
 		sg, isInt := MInt(res[0])
 		c.Check(isInt && sg == 0 && res[1] == MV(w.errNil), "C06-CMP", key, fd.Pos(), "(0, ErrNilOperand)",
 			"comparison.Compare does not report a NULL operand as (0, ErrNilOperand): every comparison's NULL rule and IN's NULL rule rest on it")
+	}
+}
+
+// c06NullSafe: x <=> y over NULL operands is two-valued: TRUE iff both are NULL (Eval composed with Compare).
+func c06NullSafe(w *c06World) {
+	c := w.c
+	cfd := c.P.Decl(LookupFunc(w.ex, "NullSafeEquals.Compare"))
+	efd := c.P.Decl(LookupFunc(w.ex, "NullSafeEquals.Eval"))
+	evalLR := LookupFunc(w.ex, "comparison.evalLeftAndRight")
+	if cfd == nil || efd == nil || evalLR == nil {
+		c.Undecided("C06-CMP", "NullSafeEquals", 0, "NullSafeEquals.Compare / Eval / evalLeftAndRight not found")
+		return
+	}
+	nm := func(b bool) string {
+		if b {
+			return "NULL"
+		}
+		return "value"
+	}
+	for _, combo := range [][2]bool{{true, true}, {true, false}, {false, true}} {
+		key := fmt.Sprintf("NullSafeEquals(left=%s,right=%s)", nm(combo[0]), nm(combo[1]))
+		m := w.mini(w.ex)
+		m.Call = func(m *Mini, call *ast.CallExpr, fn *types.Func, recv MV, args []MV) ([]MV, bool) {
+			if fn != nil && fn == evalLR {
+				val := func(null bool, n string) MV {
+					if null {
+						return w.nilSym
+					}
+					return &MSym{Name: n}
+				}
+				return []MV{val(combo[0], "l"), val(combo[1], "r"), w.nilSym}, true
+			}
+			return nil, false
+		}
+		res, panicked, err := m.RunFunc(cfd, w.bind(w.ex, cfd, &MSym{Name: "self"}, nil))
+		if err != nil || panicked || len(res) != 2 {
+			c.Undecided("C06-CMP", key, cfd.Pos(), fmt.Sprint("Compare not foldable: ", err))
+			continue
+		}
+		sg, isInt := MInt(res[0])
+		if e, ok := res[1].(*MSym); !isInt || !ok || !e.Nil {
+			c.Bad("C06-CMP", key, cfd.Pos(), "NullSafeEquals.Compare reports an error or no sign for a NULL operand: <=> never fails on NULL")
+			continue
+		}
+		self := &MSym{Name: "self"}
+		m2 := w.mini(w.ex)
+		m2.Call = func(m *Mini, call *ast.CallExpr, fn *types.Func, recv MV, args []MV) ([]MV, bool) {
+			if fn != nil && recv == MV(self) && fn.Type().(*types.Signature).Results().Len() == 2 {
+				return []MV{constant.MakeInt64(sg), w.nilSym}, true
+			}
+			return nil, false
+		}
+		res, panicked, err = m2.RunFunc(efd, w.bind(w.ex, efd, self, nil))
+		if err != nil {
+			c.Undecided("C06-CMP", key, efd.Pos(), err.Error())
+			continue
+		}
+		got, err := w.truthResult(res, panicked)
+		if err != nil {
+			c.Undecided("C06-CMP", key, efd.Pos(), err.Error())
+			continue
+		}
+		want := 0
+		if combo[0] && combo[1] {
+			want = 1
+		}
+		c.Check(got == want, "C06-CMP", key, efd.Pos(), c06TruthName(got), fmt.Sprintf("%s yields %s; <=> is TRUE iff both operands are NULL, never NULL", key, c06TruthName(got)))
 	}
 }
 
